@@ -506,6 +506,20 @@ Section Out.
   Qed.
 End Out.
 
+(* one directory: standard output is the concatenation of the single-file reports over the
+   sorted depth-first enumeration *)
+Lemma scan_one_directory_stdout : forall body argv0 fs d ch stdin,
+  plain_arg d = true -> resolve fs d = SDir ch ->
+  (Z.of_nat (height_in ch) <= max_depth)%Z -> paths_ok_in ch d = true ->
+  stdout_of body argv0 (fst (main_run repaired fs [bs "-r"; d] stdin))
+  = concat (map (report_text body) (dfs_sorted_regular_files ch d)).
+Proof.
+  intros body argv0 fs d ch stdin Hd Hr Hh Hp.
+  rewrite scan_stdout; [|assumption|].
+  - cbn [flat_map]. unfold arg_files. rewrite Hr. now rewrite app_nil_r.
+  - cbn [forallb]. unfold arg_ok. rewrite Hr, Hp. apply Z.leb_le in Hh. rewrite Hh. reflexivity.
+Qed.
+
 (* ---------- refusals ---------- *)
 (* arguments that are regular files are reported, then the first directory without -r
    (or the first path that does not exist) ends the run with status 1 *)
